@@ -340,7 +340,7 @@ register(_C03())
 class _C07(CalSpec):
     pid = "C07"
     lean_module = "Starcal.Props.C07"
-    src_ties = ["Starcal.SrcTie.Cal2"]
+    src_ties = ["Starcal.SrcTie.Cal2", "Starcal.SrcTie.HijriTable"]
     kinds = ("ym",)
     expected = "month lengths equal gaps between month starts, sum to the year length, leap iff long year"
     rule = CAL_RULE
